@@ -121,6 +121,22 @@ def writers_in_propagation():
     return out
 
 
+def duplicate_reads_dropped():
+    """a computation reads one signal several times in a run (one subscription entry per read) and stops reading it in a later run:
+    every entry must go, a later write to the signal re-runs nothing (seeds C03-g, C02-f, C11-g)"""
+    out = []
+    for kind in ("effect", "memo"):
+        for twice in (("add", ("get", 1), ("get", 1)), ("add", ("get", 1), ("add", ("get", 2), ("get", 1))), ("add", ("add", ("get", 1), ("get", 1)), ("get", 1))):
+            for other in (("get", 2), ("add", ("get", 2), ("get", 2))):
+                prog = [("signal", 1, ("lit", 1)), ("signal", 2, ("lit", 1)), ("signal", 3, ("lit", 1)),
+                        (kind, 4, ("body", None, [], ("ite", ("lt", ("lit", 0), ("get", 3)), twice, other))),
+                        ("effect", 5, ("body", None, [], ("get", 4))) if kind == "memo" else ("signal", 5, ("lit", 0)),
+                        ("set", 1, ("lit", 2)), ("set", 3, ("lit", 0)), ("set", 1, ("lit", 3)), ("set", 2, ("lit", 4)),
+                        ("set", 3, ("lit", 1)), ("set", 2, ("lit", 5)), ("set", 1, ("lit", 6))]
+                out.append(prog)
+    return out
+
+
 def oracle(prog, steps):
     """the subscription oracle, plus the 'if' direction at the position of every write, including the writes a computation makes
     while another write is being propagated"""
@@ -132,6 +148,7 @@ def gen(tier, rng):
     cases = [("readforms:%d" % i, p) for i, p in enumerate(read_forms(rng))]
     cases += [("under-tracker:%d" % i, p) for i, p in enumerate(untracked_forms_under_a_tracker())]
     cases += [("writers:%d" % i, p) for i, p in enumerate(writers_in_propagation())]
+    cases += [("dup-reads:%d" % i, p) for i, p in enumerate(duplicate_reads_dropped())]
     cases += [("random:%d" % i, p) for i, p in
               enumerate(reactive_gen.random_programs(rng.randrange(1 << 30), n_rand, FEATS, (3, 8), (3, 7)))]
     # the same untrack blocks (and batches) entered while another root is the current one
